@@ -480,6 +480,67 @@ def run(ctx):
     manym = MfrCheck()
     manym.many = True
     explore(ctx, manym, {'quick': 1, 'thorough': 12}[ctx.tier], 'mfr-many')
+    if ctx.shard == ctx.nshards - 2 or ctx.nshards == 1:
+        # one member of 65 MiB + 3 read with one request of 64 MiB + 5 (whatever cap an implementation puts on a single
+        # request, the member is not finished before its last byte has been handed out); compared piece by piece
+        iou = common.load('ioutils')
+        n_big = 65 * 2 ** 20 + 3
+        blob = bytes(range(256)) * (n_big // 256) + b'xyz'
+        try:
+            mfr = iou.MultiFileReader(io.BytesIO(b'head-'), io.BytesIO(blob), io.BytesIO(b'-tail'))
+            got1 = mfr.read(5)
+            got2 = mfr.read(64 * 2 ** 20 + 5)
+            got3 = mfr.read(2 ** 20)
+            got4 = mfr.read()
+            want_all = b'head-' + blob + b'-tail'
+            a1 = 5 + 64 * 2 ** 20 + 5
+            ok = (got1 == b'head-' and got2 == want_all[5:a1] and got3 == want_all[a1:a1 + 2 ** 20] and got4 == want_all[a1 + 2 ** 20:])
+            ctx.stats.monitor_evals += 4
+            if not ok:
+                ctx.stats.violation('mfr:read-sized:huge-request', 'MultiFileReader over members of 5 B, 65 MiB + 3 B and 5 B: read(5), '
+                                    'read(64 MiB + 5), read(1 MiB), read() returned %d, %d, %d and %d bytes; in order and exactly once '
+                                    'that is %d, %d, %d and %d (or the bytes differ)'
+                                    % (len(got1), len(got2), len(got3), len(got4), 5, a1 - 5, 2 ** 20, len(want_all) - a1 - 2 ** 20),
+                                    {'fixed': 'huge-request'})
+            ctx.stats.count('mfr_huge_request_cases')
+        except MemoryError:
+            ctx.stats.count('skipped:mfr-huge-request:not-enough-memory')
+        finally:
+            blob = want_all = got2 = got4 = None
+    # members handed over somewhere other than at their start (the caller sniffed a header), a sized read that stays
+    # inside the first member, then seek(0): everything, from every member's first byte
+    iou = common.load('ioutils')
+    for mk_, parts in ((io.BytesIO, [b'aaaa', b'MAGICrest', b'', b'zz']), (io.StringIO, ['aaaa', 'MAGICrest', '', 'zz'])):
+        for sniff in (5, 9, 1):
+            for first_read in (2, 4, 3):
+                members = [mk_(p_) for p_ in parts]
+                members[1].read(sniff)
+                members[3].read(1)
+                try:
+                    mfr = iou.MultiFileReader(*members)
+                    got_a = mfr.read(first_read)
+                    mfr.seek(0)
+                    got_b = mfr.read()
+                except Exception as e:
+                    got_a, got_b = 'raised', repr(e)
+                ctx.stats.monitor_evals += 1
+                whole = parts[0][:0].join(parts)
+                if got_a != parts[0][:first_read] or got_b != whole:
+                    ctx.stats.violation('mfr:seek0:members-handed-over-mid-file', 'MultiFileReader over %r with the second member at '
+                                        'offset %d and the last at 1: read(%d) -> %r, seek(0), read() -> %r; the concatenation is %r'
+                                        % (parts, sniff, first_read, got_a, got_b, whole), {'fixed': 'mid-file-members'})
+                ctx.stats.count('mfr_members_handed_over_mid_file')
+        # a zero-sized read hands out nothing and moves nothing (read(0) used to return everything that was left)
+        try:
+            mfr = iou.MultiFileReader(mk_(parts[0]), mk_(parts[1]))
+            z0, r1, z1, rest = mfr.read(0), mfr.read(3), mfr.read(0), mfr.read()
+        except Exception as e:
+            z0 = z1 = r1 = rest = repr(e)
+        ctx.stats.monitor_evals += 1
+        empty = parts[0][:0]
+        if (z0, r1, z1, rest) != (empty, parts[0][:3], empty, parts[0][3:] + parts[1]):
+            ctx.stats.violation('mfr:read-zero', 'MultiFileReader over %r: read(0), read(3), read(0), read() -> %r'
+                                % (parts[:2], (z0, r1, z1, rest)), {'fixed': 'read-zero'})
     bigm = MfrCheck()
     bigm.big = True
     explore(ctx, bigm, {'quick': 3, 'thorough': 60}[ctx.tier], 'mfr-big')
@@ -493,6 +554,13 @@ def run(ctx):
 
 
 def replay(witness):
+    if witness.get('fixed') == 'read-zero':
+        iou = common.load('ioutils')
+        mfr = iou.MultiFileReader(io.BytesIO(b'aaaa'), io.BytesIO(b'MAGICrest'))
+        got = (mfr.read(0), mfr.read(3), mfr.read(0), mfr.read())
+        return None if got == (b'', b'aaa', b'', b'aMAGICrest') else 'mfr:read-zero: %r' % (got,)
+    if 'history' not in witness:
+        return None
     h = witness['history']
     chk = MfrCheck() if h.get('kind') == 'mfr' else SpoolCheck(h.get('kind') == 'text')
     f = chk.run(h, None)
